@@ -4,7 +4,7 @@
 From Coq Require Import NArith ZArith List Bool String.
 From V Require Import Base.UString Model.PatternEq Spec.PatternSemantics
      Proofs.PatternEqCmp Proofs.PatternEqLists Proofs.PatternEqC Proofs.PatternEqDnf Proofs.PatternEqNorm
-     Proofs.PatternEqTop Proofs.PatternEqO Proofs.PatternEqWitness Proofs.PatternEqSort Proofs.PatternEqRecog Proofs.PatternEqErr Proofs.PatternEqIp4.
+     Proofs.PatternEqTop Proofs.PatternEqO Proofs.PatternEqWitness Proofs.PatternEqSort Proofs.PatternEqRecog Proofs.PatternEqErr Proofs.PatternEqIp4 Proofs.PatternEqValid.
 Import ListNotations.
 
 (* ---- the comparators are lawful (reflexive, antisymmetric, transitive as a total preorder) ---- *)
@@ -297,11 +297,10 @@ Theorem never_raises_repaired_witness : equiv repaired 8 w_ip_int w_ip_int = Ok 
 Proof. exact repaired_answers. Qed.
 Print Assumptions never_raises_repaired_witness.
 
-(* never fails, repaired variant -- PARTIAL.  Full statement (not proved):
-     forall p q, (every AND node of p and q passes the constructors' root-type rule) ->
-                 exists fuel b, equiv repaired fuel p q = Ok b
-   i.e. termination of the two settle loops and non-emptiness of the distributed operand sets of a
-   valid AND.  Proved: the only failures of the repaired model are fuel exhaustion and the
+(* never fails, repaired variant, arbitrary object models -- PARTIAL.  Full statement (not proved):
+     forall p q, valid_o p = true -> valid_o q = true -> exists fuel b, equiv repaired fuel p q = Ok b
+   What is missing is termination of the two settle loops only (see equiv_never_raises_up_to_fuel
+   below).  Proved here, without any hypothesis on the patterns: the only failures of the repaired model are fuel exhaustion and the
    AttributeError of DNF on an AND all of whose distributed sets were pruned (never ValueError /
    TypeError / the AttributeErrors of the special-value pass); the harness counts fuel exhaustions
    (none at fuel 64 on any generated pattern). *)
@@ -309,6 +308,26 @@ Theorem equiv_never_raises_partial : forall fuel p q e,
     equiv repaired fuel p q = Err e -> e = EFuel \/ e = EAttribute.
 Proof. exact equiv_repaired_err. Qed.
 Print Assumptions equiv_never_raises_partial.
+
+(* never fails, repaired variant, on patterns the object model's constructors accept (valid_o: every
+   [ ... ] holds a comparison expression whose duplication succeeds with a non-empty set of root types,
+   which is what the parser builds once it maintains root_types -- proposed_fixes/C09-root-types-recomputed.diff).
+   "If the original AND node was legal, it is guaranteed that there will be at least one legal
+   distributed AND node" (DNFTransformer.transform_and): proved, so the AttributeError is excluded and
+   the ONLY failure left is fuel exhaustion.  Still partial in one respect: that some fuel suffices
+   (termination of the two settle loops) is not proved; the harness counts exhaustions (none). *)
+Theorem dnf_never_fails_on_valid : forall fuel e,
+    valid e -> match cdnf fuel e with Ok (e', _) => valid e' | Err x => x = EFuel end.
+Proof. exact cdnf_valid. Qed.
+Print Assumptions dnf_never_fails_on_valid.
+
+Theorem equiv_never_raises_up_to_fuel : forall fuel p q e,
+    valid_o p = true -> valid_o q = true -> equiv repaired fuel p q = Err e -> e = EFuel.
+Proof. exact equiv_valid_err. Qed.
+Print Assumptions equiv_never_raises_up_to_fuel.
+
+Example valid_o_satisfiable : valid_o w_bin_upper = true.
+Proof. vm_compute. reflexivity. Qed.
 
 (* sound: refuted for the pinned variant (the side condition safe_o of equiv_sound cannot be dropped):
    base64 text lower-cased on a registry-key path, regular expression lower-cased *)
